@@ -158,16 +158,37 @@ def exit_ok(p, name):
     raise Broken("%s rc=%d %s" % (name, p.returncode, (p.stderr or "")[-300:]))
 
 
+def _cpu_seconds(pid):
+    """user + system CPU time of a live process (0 if it cannot be read)"""
+    try:
+        f = open("/proc/%d/stat" % pid).read().rsplit(")", 1)[1].split()
+        return (int(f[11]) + int(f[12])) / float(os.sysconf("SC_CLK_TCK"))
+    except Exception:
+        return 0.0
+
+
 def run(cmd, timeout=600, env=None, cwd=None, input=None):
     e = dict(os.environ)
     if env:
         e.update(env)
+    proc = subprocess.Popen(cmd, stdin=subprocess.PIPE if input is not None else None, stdout=subprocess.PIPE,
+                            stderr=subprocess.PIPE, text=True, env=e, cwd=cwd)
     try:
-        p = subprocess.run(cmd, capture_output=True, text=True, timeout=timeout, env=e, cwd=cwd,
-                           input=input)
+        out, err = proc.communicate(input, timeout=timeout)
     except subprocess.TimeoutExpired:
+        cpu = _cpu_seconds(proc.pid)
+        proc.kill()
+        proc.communicate()
+        # An executor of the harness (a binary from the build cache) that was BUSY for most of its time limit
+        # did not terminate: on the unchanged tree each of them finishes in a fraction of its limit, so this is
+        # an observation about the code under test (recorded like a death). A process that was merely starved
+        # of CPU, and every tool that is not an executor (TLC, the compiler), stays broken machinery.
+        if cpu >= 0.6 * timeout and os.path.dirname(os.path.abspath(cmd[0])).startswith(CACHE):
+            DEATHS.append({"executor": os.path.basename(cmd[0]).split("-")[0], "signal": 0,
+                           "stderr": "did not terminate: busy for %.0f s of CPU within its limit of %s s" % (cpu, timeout)})
+            log("[hang] %s busy for %.0fs" % (os.path.basename(cmd[0]), cpu))
         raise Broken("timeout after %ss: %s" % (timeout, " ".join(cmd)[:200]))
-    return p
+    return subprocess.CompletedProcess(cmd, proc.returncode, out, err)
 
 
 # ----------------------------------------------------------------------------- TLC
@@ -384,6 +405,9 @@ class Check:
             print("KNOWN-FINDING: property=%s %s [%s; observed %d time(s) in this run]" %
                   (self.prop, e["what"], fid, n))
         for d in DEATHS:
+            if d["signal"] == 0:
+                self.violation("executor %s %s (never on the unchanged tree)" % (d["executor"], d["stderr"]), d)
+                continue
             self.violation("executor %s died on signal %d while driving the real headers (never on the unchanged tree): %s" %
                            (d["executor"], d["signal"], d["stderr"].replace("\n", " ")[-200:]), d)
         del DEATHS[:]
